@@ -678,6 +678,7 @@ def check_C05(rep):
     quick = rep.tier == "quick"
     map_collide_stage(rep, "MapTrace_C05.cfg", "real OrderedMap " + what, "c05", 255, 3, (1, 40) if quick else (1, 4))
     map_slab_stage(rep, "MapTrace_C05.cfg", "real OrderedMap " + what, "c05")
+    map_full_stage(rep, "MapTrace_C05.cfg", "real OrderedMap " + what, "c05")
     array_fan_stage(rep, "ArrayTrace_C05.cfg", "real Array " + what + " (operation on a full root index slab)", "c05")
     map_fan_stage(rep, "MapTrace_C05.cfg", "real OrderedMap " + what + " (operation on a full root index slab)", "c05")
     for (T, nkeys, mode, ksz, vs, maxel, num, depth) in ([(256, 40, "spread", 5, "{12, 40, 60, 101}", 107, 14, 150), (256, 24, "clustered", 5, "{12, 40}", 107, 8, 100)] if quick else
@@ -778,6 +779,34 @@ def array_fan_stage(rep, tcfg, what, prefix, wrap=False):
                            "MC_Array T=256 growth walks", {"cfg": {"T": 256}}, "ArrayTrace.tla", tcfg, what, num, depth, fan, nhdr=0, wrap=wrap)
 
 
+def map_full_stage(rep, tcfg, what, prefix, wrap=False, limits=(255,)):
+    """Every transition of the COMPOSED map algorithm (MapFull: slab tree x collision groups, layer C) for keys that collide in
+    pairs / triples / on every level among keys with digests of their own: groups form, spill, collapse while the slabs that hold
+    them split, borrow and merge.  Replayed in edge mode (or persist-wrapped); layer C is compared as drift."""
+    quick = rep.tier == "quick"
+    plans = [("mixed", 8, 6 if quick else 7, "{12, 101}", 24 if quick else 4)]
+    if not quick:
+        plans += [("mixed", 10, 7, "{12, 60, 101}", 40), ("pairs", 6, 6, "{12, 60, 101}", 2), ("triples", 6, 6, "{12, 101}", 2), ("deep", 6, 6, "{12, 101}", 1)]
+    else:
+        plans += [("triples", 6, 5, "{12, 101}", 12)]
+    for lim in limits:
+        for (mode, nk, mk, vs, den) in plans:
+            if lim != 255 and mode not in ("triples", "pairs"):
+                continue
+            name = "%s-mfull-%s-%d-l%d" % (prefix, mode, mk, lim)
+            files, n, total = model_histories(rep, "MC_MapFull.tla", "MC_MapFull.cfg",
+                                              {"EmitEdges": "TRUE", "Keys": keyset(nk), "MaxKeys": mk, "DigMode": '"%s"' % mode, "VSizes": vs, "LimitF": lim},
+                                              "MC_MapFull T=256 digests=%s %d keys (<= %d present) x values %s, limit %d: all shapes of the composed algorithm, all ops" % (mode, nk, mk, vs, lim),
+                                              {"cfg": {"T": 256, "limit": lim}}, lambda ops, key: frac(key + rep.seed, 1, den), name, timeout=7200)
+            base = len(rep.distinct)
+            rep.distinct.update(range(base, base + n))
+            if wrap:
+                hist_stage(rep, name + "-edges", ["map-run", "-tail", "2"], "map", "MapTrace.tla", tcfg, wrap_persist(files, 1), "tail", what)
+            else:
+                hist_stage(rep, name + "-edges", ["map-run"], "map", "MapTrace.tla", tcfg, files, "edge", what)
+            rep.stages[name + "-edges"]["selected_of_distinct_histories"] = [n, total]
+
+
 def map_slab_stage(rep, tcfg, what, prefix):
     """Every transition of the slab-level map algorithm (MapSlabTree, layer C) for keys with distinct first-level digests."""
     quick = rep.tier == "quick"
@@ -806,6 +835,7 @@ def map_stages(rep, tcfg, what, prefix, collide=True):
         map_walk_stage(rep, tcfg, what, prefix, T, nkeys, mode, ksz, vs, maxel, num, depth)
     map_builtin_stage(rep, tcfg, what, prefix, 256, 24, 12 if quick else 300, 120 if quick else 300)
     map_slab_stage(rep, tcfg, what, prefix)
+    map_full_stage(rep, tcfg, what, prefix)
     rep.exhaustive = False
 
 
@@ -836,6 +866,8 @@ def check_C12(rep):
         ex = map_collide_stage(rep, "MapTrace_C12.cfg", what, "c12", lim, 3, (1, 24) if quick else None) and ex
     # long keys: the value budget next to a key (an over-budget value must be moved to its own slab, also in full-collision lists)
     ex = map_collide_stage(rep, "MapTrace_C12.cfg", what, "c12", 255, 3, (1, 16) if quick else None, ksz=40, vsizes="{12, 80}") and ex
+    # collision groups inside slabs that split / borrow / merge (composed layer C), limits 255 and 1
+    map_full_stage(rep, "MapTrace_C12.cfg", what, "c12", limits=(255, 1))
     map_walk_stage(rep, "MapTrace_C12.cfg", what, "c12", 256, 24, "clustered", 5, "{12, 40}", 107, 12 if quick else 300, 120 if quick else 300)
     map_walk_stage(rep, "MapTrace_C12.cfg", what, "c12l1", 256, 24, "clustered", 5, "{12, 40}", 107, 8 if quick else 200, 100 if quick else 300, limit=1)
     rep.exhaustive = ex
@@ -1715,6 +1747,7 @@ def check_C03(rep):
     base = len(rep.distinct)
     rep.distinct.update(range(base, base + n))
     hist_stage(rep, "c03-mapslab-edges-wrapped", ["map-run", "-tail", "2"], "map", "MapTrace.tla", "MapTrace_C03.cfg", wrap_persist(files, 1), "tail", what)
+    map_full_stage(rep, "MapTrace_C03.cfg", what, "c03", wrap=True)
     array_fan_stage(rep, "ArrayTrace_C03.cfg", what, "c03", wrap=True)
     map_fan_stage(rep, "MapTrace_C03.cfg", what, "c03", wrap=True)
     # nested containers: every heap shape of <= 2 containers with every placement of commit / cache drop / crash, and walks
